@@ -158,9 +158,12 @@ func (fr *frame) exec(in ssa.Instruction, st *State, reach string) {
 		}
 		r := fc.newRef(st, i.Comment)
 		fr.vals[i] = r
+		if isSyncType(elemT) {
+			return // a local mutex / wait group: an opaque object
+		}
 		if privateCell(i) {
 			if _, isStruct := elemT.Underlying().(*types.Struct); !isStruct || isTimeType(elemT) {
-				fr.priv = append(fr.priv, privCell{r, elemT})
+				fr.priv = append(fr.priv, privCell{r, elemT, i})
 			}
 		}
 		// zero-initialise
@@ -364,6 +367,8 @@ func (fr *frame) exec(in ssa.Instruction, st *State, reach string) {
 		fc.heapSet(st, "CL", Term{store(cl.S, r.S, "0"), cl.Sort})
 		cc := fc.heapGet(st, "CC", arr(SInt, SInt))
 		fc.heapSet(st, "CC", Term{store(cc.S, r.S, "0"), cc.Sort})
+		crv := fc.heapGet(st, "CR", arr(SInt, SInt))
+		fc.heapSet(st, "CR", Term{store(crv.S, r.S, "0"), crv.Sort})
 		fr.vals[i] = r
 	case *ssa.MakeInterface:
 		x := fr.val(i.X)
@@ -378,6 +383,34 @@ func (fr *frame) exec(in ssa.Instruction, st *State, reach string) {
 			cl.Bindings = append(cl.Bindings, fr.val(b))
 		}
 		fr.vals[i] = cl
+		if ct := fc.e.specs.Funcs[fnKey(cl.Fn)]; ct != nil && len(ct.Captures) > 0 {
+			// `captures` clauses of the closure's contract: obligations here, where the captured cells
+			// are known; they stay true because every captured cell they may mention is written once
+			env := &Env{fc: fc, pkg: ct.Pkg, vars: map[string]CVal{}, bound: map[string]CVal{}, st: st, old: st}
+			okCells := true
+			for k, fv := range cl.Fn.FreeVars {
+				if k < len(cl.Bindings) {
+					if t, ok := cl.Bindings[k].(Term); ok {
+						env.vars[fv.Name()] = CVal{t, fv.Type()}
+					}
+				}
+				if al, isAlloc := i.Bindings[k].(*ssa.Alloc); !isAlloc || !singleStore(al) || !privateCell(al) {
+					okCells = false
+				}
+			}
+			if !okCells {
+				fc.unsupported("captures clause of %s: a captured variable is assigned more than once or escapes", fnKey(cl.Fn))
+			}
+			for idx, c := range ct.Captures {
+				t, err := env.evalBool(c.Expr)
+				if err != nil {
+					fc.unsupported("captures of %s: %v", fnKey(cl.Fn), err)
+					continue
+				}
+				o := fc.oblig("pre", "closure."+sanitizeName(shortKey(ct.Key))+".captures."+strconv.Itoa(idx), t.S, reach, i.Pos(), nil)
+				o.Src = c.Src
+			}
+		}
 	case *ssa.ChangeType:
 		fr.vals[i] = fr.val(i.X)
 	case *ssa.ChangeInterface:
@@ -480,6 +513,15 @@ func (fr *frame) exec(in ssa.Instruction, st *State, reach string) {
 				fc.callees[ct.Key] = true
 				return
 			}
+		}
+		// fork/join under `opt go-sequential`: the spawned call is executed as a synchronous call at the
+		// go statement (each goroutine runs to completion when it is started). This is ONE schedule;
+		// it is claimed only for functions whose goroutines share nothing but lock-protected state and
+		// are joined (WaitGroup) before their effects are read - stated as an assumption.
+		if fc.c != nil && fc.c.Opts["go-sequential"] != "" {
+			fc.assumes = append(fc.assumes, "fork/join in "+fc.short+": every `go` statement is executed as a synchronous call (one schedule: each goroutine runs to completion when started); sound for the stated postconditions only if the goroutines share nothing but mutex-protected state and are joined before their effects are read (not checked); blocking and scheduling are not modelled")
+			fr.call(i, &i.Call, st, reach)
+			return
 		}
 		fc.unsupported("go statement in %s (goroutines are outside the proof subset)", fr.fn.Name())
 	case *ssa.Select:
@@ -661,6 +703,11 @@ func (fr *frame) execUnOp(i *ssa.UnOp, st *State, reach string) {
 			} else {
 				fr.safety("nil", not(eq(pt.S, "0")), reach, i.Pos(), "nil pointer dereference")
 			}
+			if cl, ok := fc.cellClosure[pt.S]; ok {
+				// the cell of a local variable that holds one closure for its whole life
+				fr.vals[i] = cl
+				return
+			}
 			fr.vals[i] = fr.loadRef(st, pt, elemT)
 		default:
 			fc.unsupported("load through %T in %s", p, fr.fn.Name())
@@ -685,6 +732,28 @@ func (fr *frame) execUnOp(i *ssa.UnOp, st *State, reach string) {
 		v := fc.fresh("recv", es)
 		if es == SInt && isRefType(ct.Elem()) {
 			fc.assumeAllocated(st, v)
+		}
+		if fc.c != nil && fc.c.Opts["go-sequential"] != "" {
+			// fork/join model: the goroutines that send have already run, so a receive takes the next
+			// element of the channel's log (FIFO); an exhausted closed channel yields the zero value and
+			// ok=false; an exhausted open channel would block: the value is unconstrained
+			cr := fc.heapGet(st, "CR", arr(SInt, SInt))
+			cl := fc.heapGet(st, "CL", arr(SInt, SInt))
+			cc := fc.heapGet(st, "CC", arr(SInt, SInt))
+			co := fc.heapGet(st, "CO$"+sanitize(es), arr(SInt, arr(SInt, es)))
+			n := sel(cr.S, ch.S)
+			avail := fc.define("recv_avail", Term{fmt.Sprintf("(< %s %s)", n, sel(cl.S, ch.S)), SBool})
+			closed := fmt.Sprintf("(> %s 0)", sel(cc.S, ch.S))
+			zero := fc.e.zero(es, ct.Elem())
+			val := fc.define("recv_v", Term{fmt.Sprintf("(ite %s %s (ite %s %s %s))", avail.S, sel(sel(co.S, ch.S), n), closed, zero.S, v.S), es})
+			okv := fc.define("recv_ok", Term{fmt.Sprintf("(ite %s true (ite %s false %s))", avail.S, closed, fc.fresh("recv_blocked", SBool).S), SBool})
+			fc.heapSet(st, "CR", Term{store(cr.S, ch.S, fmt.Sprintf("(ite %s (+ %s 1) %s)", avail.S, n, n)), cr.Sort})
+			if i.CommaOk {
+				fr.vals[i] = &Tuple{[]Val{val, okv}}
+			} else {
+				fr.vals[i] = val
+			}
+			return
 		}
 		if i.CommaOk {
 			fr.vals[i] = &Tuple{[]Val{v, fc.fresh("recv_ok", SBool)}}
@@ -735,6 +804,12 @@ func (fr *frame) execStore(i *ssa.Store, st *State, reach string) {
 		elemT := ptrElem(i.Addr.Type())
 		if _, isGlobal := i.Addr.(*ssa.Global); !isGlobal {
 			fr.safety("nil", not(eq(pt.S, "0")), reach, i.Pos(), "nil pointer dereference (store)")
+		}
+		if cl, isCl := fr.val(i.Val).(*Closure); isCl {
+			if al, isAlloc := i.Addr.(*ssa.Alloc); isAlloc && singleStore(al) && privateCell(al) {
+				// `f := func...` captured by other closures: the cell is written once, with this closure
+				fc.cellClosure[pt.S] = cl
+			}
 		}
 		fr.storeRef(st, pt, elemT, fr.term(i.Val), reach, i.Pos())
 	default:
@@ -1123,4 +1198,19 @@ func (fc *FnCtx) strLess(a, b string) string {
 		fc.decls = append(fc.decls, "(assert (forall ((a String) (b String)) (! (= (strlt$ a b) (str.< a b)) :pattern ((strlt$ a b)))))")
 	}
 	return "(strlt$ " + a + " " + b + ")"
+}
+
+
+// singleStore: the cell is the target of exactly one store instruction.
+func singleStore(a *ssa.Alloc) bool {
+	n := 0
+	if a.Referrers() == nil {
+		return false
+	}
+	for _, r := range *a.Referrers() {
+		if st, ok := r.(*ssa.Store); ok && st.Addr == a {
+			n++
+		}
+	}
+	return n == 1
 }
